@@ -487,6 +487,9 @@ ObsStep(o, e) ==
     LET o0 == [o EXCEPT !.flags = {}]
         o1 == Dispatch(o0, e)
         o2 == IF e.panic THEN Flag(o1, {<<p, "NoPanic">> : p \in Props(o1)}) ELSE o1
-    IN [o2 EXCEPT !.flags = {f \in @ : f[1] \in Props(o2)}]
+        \* delivery guarantees are not claimed for a connection that receives forged packets (no authentication at this layer)
+        victims == IF "victims" \in DOMAIN o2.cfg THEN Range(o2.cfg.victims) ELSE {}
+        isVictim == "conn" \in DOMAIN e /\ e.conn \in victims
+    IN [o2 EXCEPT !.flags = {f \in @ : f[1] \in Props(o2) /\ ~(isVictim /\ f[1] \in {"C01", "C02", "C03", "C08", "C09", "C14", "C15"})}]
 
 =============================================================================
